@@ -202,6 +202,9 @@ def gen_tag(rng, used: set) -> str:
 
 def gen_col(rng, n: int) -> dict:
     r = rng.random()
+    if r < 0.07:
+        # a text column with missing entries (None) or built with dtype=PyObject: object dtype
+        return {"t": "so", "v": [None if rng.random() < 0.25 else gen_string(rng) for _ in range(n)]}
     if r < 0.35:
         return {"t": "s", "v": [gen_string(rng) for _ in range(n)]}
     if r < 0.6:
@@ -503,6 +506,8 @@ class MCif:
 
 def col_to_vals(col: dict) -> list:
     t = col["t"]
+    if t == "so":
+        return [{"t": "s", "v": "None" if x is None else x} for x in col["v"]]
     if t == "s":
         return [{"t": "s", "v": x} for x in col["v"]]
     if t == "f":
@@ -616,6 +621,8 @@ class CifEngine(Engine):
         import scipp as sc
 
         t = c["t"]
+        if t == "so":
+            return sc.array(dims=[dim], values=list(c["v"]), dtype=sc.DType.PyObject)
         if t == "s":
             return sc.array(dims=[dim], values=list(c["v"]))
         if t == "f":
@@ -674,8 +681,8 @@ class CifEngine(Engine):
                 m = MItem("loop", op["comment"], op["schema"])
                 m.cols = [[k, col_to_vals(c)] for k, c in op["cols"]]
                 for _, c in op["cols"]:
-                    if c["t"] == "s":
-                        note_strings(*c["v"])
+                    if c["t"] in ("s", "so"):
+                        note_strings(*[x for x in c["v"] if x is not None])
                 mod[op["id"]] = m
             elif o == "block":
                 content_l, content_m = [], []
@@ -712,8 +719,8 @@ class CifEngine(Engine):
             elif o == "loop_set":
                 _, exc = core.capture(lambda: lib[op["loop"]].__setitem__(op["key"], self._col(op["col"])))
                 mod[op["loop"]].cols.append([op["key"], col_to_vals(op["col"])])
-                if op["col"]["t"] == "s":
-                    note_strings(*op["col"]["v"])
+                if op["col"]["t"] in ("s", "so"):
+                    note_strings(*[x for x in op["col"]["v"] if x is not None])
             elif o in ("loop_set_bad", "block_bad_name", "cif_bad_name", "with_powder_bad"):
                 if o == "with_powder_bad":
                     def bad():
@@ -1039,7 +1046,9 @@ class CifEngine(Engine):
             return  # hazard strings etc. are judged by the main program; nothing to compare
         key, c = ip["cols"][ip["col"]]
         new = ip["new"]
-        if c["t"] == "fv":
+        if c["t"] == "so":
+            val = sc.scalar(new["v"] if new["v"] is not None else "none", dtype=sc.DType.PyObject)
+        elif c["t"] == "fv":
             val = sc.scalar(float(new["v"]), variance=float(new["var"]))
         elif c["t"] == "f":
             val = sc.scalar(float(new["v"]))
